@@ -175,7 +175,7 @@ def strip_generics(s):
 
 # ----------------------------------------------------------------------------- state
 class Frame:
-    __slots__ = ('fid', 'fn', 'locals', 'bb', 'ret_dest', 'ret_bb', 'unwind_bb', 'tag')
+    __slots__ = ('fid', 'fn', 'locals', 'bb', 'ret_dest', 'ret_bb', 'unwind_bb', 'tag', 'at_term')
 
     def __init__(self, fid, fn, tag=None):
         self.fid = fid
@@ -186,9 +186,11 @@ class Frame:
         self.ret_bb = None
         self.unwind_bb = None
         self.tag = tag
+        self.at_term = False     # resumed at the terminator of bb (after a yield point): statements already ran
 
     def clone(self):
         f = Frame(self.fid, self.fn, self.tag)
+        f.at_term = self.at_term
         f.locals = dict(self.locals)
         f.bb = self.bb
         f.ret_dest = self.ret_dest
@@ -272,6 +274,8 @@ class Engine:
         self.tombstone_moves = False
         self.conts = {}         # continuation tag -> handler(engine, st, data, return_value) -> None | [states]
         self.drop_handler = None
+        self.yield_hook = None
+        self.strict_opaque = False
 
     # ---- solver
     def feasible(self, st, extra=None):
@@ -760,7 +764,10 @@ class Engine:
             st.status = 'truncated'
             self.stats.truncated += 1
             return None
-        for stmt in blk.stmts:
+        stmts = blk.stmts
+        if fr.at_term:
+            stmts = ()
+        for stmt in stmts:
             self.stats.steps += 1
             if stmt.kind == 'nop':
                 continue
@@ -779,6 +786,12 @@ class Engine:
                 else:
                     raise Unsupported(f"setdisc on {cur!r}")
                 self.write_place(st, fr, stmt.place, new)
+        # yield points (multi-threaded mode): stop *before* an operation on shared state so that another task may run
+        if self.yield_hook is not None and not fr.at_term and not st.meta.get('no_yield') and self.yield_hook(self, st, fr, blk.term):
+            fr.at_term = True
+            st.status = 'yield'
+            return None
+        fr.at_term = False
         return self.terminator(st, fr, blk.term)
 
     def terminator(self, st, fr, t):
@@ -966,6 +979,19 @@ class Engine:
 
     def opaque_call(self, st, fr, t, args, callee, label=None):
         short = _callee_short(callee)
+        if self.strict_opaque:
+            for a in args:
+                tgt = a
+                if isinstance(a, VRef) and a.mut:
+                    try:
+                        tgt = self.get_path(st, self.root_get(st, a.root), a.path)
+                    except Unsupported:
+                        tgt = None
+                elif isinstance(a, VRef):
+                    continue
+                if tgt is not None and _contains_tracked(tgt):
+                    raise Unsupported(f"unmodelled function {short} receives a value with tracked resources "
+                                      f"({_describe(tgt)}): its effect on them is unknown")
         self.stats.opaque[short] = self.stats.opaque.get(short, 0) + 1
         dty = fr.fn.local_types.get(t.dest.local) if not t.dest.proj else _proj_ty(t.dest)
         n = sum(1 for e in st.events if e[0] == 'call' and e[1] == short) + 1
@@ -1091,6 +1117,17 @@ def _callee_short(callee):
         return f"<{selfty[:70]}>::{trait}::{m.group(3)}"
     s = strip_generics(s)
     return s[-100:]
+
+
+def _contains_tracked(v, depth=0):
+    """does the value own model-tracked resources (handles to model objects, boxes, closures)?"""
+    if depth > 6 or not isinstance(v, VAgg):
+        return False
+    if v.extra and isinstance(v.extra, dict) and 'oid' in v.extra:
+        return True
+    if v.name in ('Box',) or (v.name or '').startswith('{closure') or (v.name or '').startswith('{coroutine'):
+        return True
+    return any(_contains_tracked(x, depth + 1) for x in v.fields.values())
 
 
 def _describe(v):
